@@ -935,12 +935,20 @@ pub fn check_pipeline(c: &PipeCase, st: &mut Stats) -> Result<(), Viol> {
     }
     // build per-connection pipelines: command k followed by PING k
     let mut pipes: Vec<Vec<(String, &'static str)>> = vec![];
+    // (in a sixth of the cases one connection floods one other with 30-90 messages in a row)
+    let flood: Option<(usize, usize)> = if s.chance(16) { Some((s.pick(n), s.pick(n))) } else { None };
+    // what every connection must receive as direct messages: (sender, number)
+    let mut due: Vec<BTreeSet<(usize, usize)>> = vec![BTreeSet::new(); n];
     for i in 0..n {
-        let len = 5 + s.pick(26);
+        let flooding = flood.map_or(false, |(f, _)| f == i);
+        let len = if flooding { 30 + s.pick(61) } else { 5 + s.pick(26) };
         let mut v = vec![];
         for k in 1..=len {
-            let kind = s.pick(9);
-            let target = s.pick(n);
+            let kind = if flooding { 0 } else { s.pick(9) };
+            let target = if flooding { flood.unwrap().1 } else { s.pick(n) };
+            if kind <= 2 {
+                due[target].insert((i, k));
+            }
             let (l, exp): (String, &'static str) = match kind {
                 0 | 1 | 2 => (format!("PRIVMSG p{} :s{}-{}", target, i, k), "msg"),
                 3 => (format!("PRIVMSG #p :s{}-{}", i, k), "msg"),
@@ -984,6 +992,7 @@ pub fn check_pipeline(c: &PipeCase, st: &mut Stats) -> Result<(), Viol> {
         let mut seg = 1usize; // the segment we are in = index of the next expected PONG
         let mut seen_end = false;
         let mut last_from: BTreeMap<usize, usize> = BTreeMap::new();
+        let mut got_direct: BTreeSet<(usize, usize)> = BTreeSet::new();
         for l in &ls {
             log.push(format!("c{} < {}", i, l));
             if l.starts_with(&server_prefix) {
@@ -1034,6 +1043,9 @@ pub fn check_pipeline(c: &PipeCase, st: &mut Stats) -> Result<(), Viol> {
                 if let Some(t) = l.rsplit(":s").next() {
                     let mut it = t.split('-');
                     if let (Some(a), Some(b)) = (it.next().and_then(|x| x.parse::<usize>().ok()), it.next().and_then(|x| x.parse::<usize>().ok())) {
+                        if l.contains(&format!(" PRIVMSG p{} :", i)) && !got_direct.insert((a, b)) {
+                            return Err(Viol::new("C18.every_message_delivered_once", "relay-twice", format!("c{} received message #{} of p{} twice", i, b, a)).with_transcript(log.clone()));
+                        }
                         let prev = last_from.insert(a, b).unwrap_or(0);
                         if b <= prev {
                             return Err(Viol::new(
@@ -1046,6 +1058,16 @@ pub fn check_pipeline(c: &PipeCase, st: &mut Stats) -> Result<(), Viol> {
                     }
                 }
             }
+        }
+        if got_direct != due[i] {
+            let lost: Vec<&(usize, usize)> = due[i].difference(&got_direct).take(4).collect();
+            let invented: Vec<&(usize, usize)> = got_direct.difference(&due[i]).take(4).collect();
+            return Err(Viol::new(
+                "C18.every_message_delivered_once",
+                "relay-lost",
+                format!("c{} was sent {} direct messages and received {}: lost (sender, number) {:?}, never sent {:?}", i, due[i].len(), got_direct.len(), lost, invented),
+            )
+            .with_transcript(log.iter().rev().take(40).rev().cloned().collect()));
         }
         if seg != pipes[i].len() + 1 {
             return Err(Viol::new("C18.liveness", "pipeline-incomplete", format!("c{} got {} of {} PONGs", i, seg - 1, pipes[i].len())).with_transcript(log.clone()));
@@ -1232,6 +1254,7 @@ pub fn run(ctx: &RunCtx) -> Vec<PartOutcome> {
         explore_with(ctx, "bursts_parallel", ctx.tier.pick(1_000, 20_000), 12, burst_strat, check_burst_mt),
         explore_with(ctx, "counters_parallel", ctx.tier.pick(48, 800), 8, counters_strat, check_counters_mt),
         explore_with(ctx, "teardown_under_load", ctx.tier.pick(16, 160), 4, counters_strat, check_teardown_under_load),
+        explore_with(ctx, "lusers_snapshot", ctx.tier.pick(200, 3_000), 4, counters_strat, check_lusers_snapshot),
     ]
 }
 
@@ -1243,6 +1266,7 @@ pub fn replay(part: &str, input: &Value) -> Option<Result<Result<(), Viol>, Stri
         "bursts_parallel" => Some(replay_input::<BurstCase>(input, check_burst_mt)),
         "counters_parallel" => Some(replay_input::<CounterCase>(input, check_counters_mt)),
         "teardown_under_load" => Some(replay_input::<CounterCase>(input, check_teardown_under_load)),
+        "lusers_snapshot" => Some(replay_input::<CounterCase>(input, check_lusers_snapshot)),
         _ => None,
     }
 }
@@ -1356,6 +1380,130 @@ fn check_counters_mt(c: &CounterCase, st: &mut Stats) -> Result<(), Viol> {
                 format!("{} connections sent {} x `{}` each at the same time ({} worker threads); STATS m shows {} grown by {} instead of {}", senders, per, vline, workers, k, got, want),
             ));
         }
+    }
+    Ok(())
+}
+
+// ------------------------------------------------------------- (e2) LUSERS is one snapshot
+// Every LUSERS reply describes one moment: users + invisible (251) = clients (255) = current
+// local users (265) = current global users (266), and the maxima are not below them - also while
+// other connections register, change +i and leave at the same time.  (The LUSERS block of the
+// welcome burst is known finding F12 and is not looked at here: the readers are registered
+// before the churn starts.)
+fn check_lusers_snapshot(c: &CounterCase, st: &mut Stats) -> Result<(), Viol> {
+    let mut s = S::new(&c.seeds);
+    s.raw();
+    let workers = [2usize, 4, 8][s.pick(3)];
+    let mut cfg = CfgSpec::default();
+    if s.chance(40) {
+        cfg.default_modes = "i".into();
+    }
+    let mut w = MtWorld::new(cfg.to_main_config(), workers);
+    let readers = 1 + s.pick(3);
+    for i in 0..readers {
+        let cc = w.connect();
+        if !mt_line_barrier(&mut w, cc, &format!("NICK r{}\r\nUSER ru{} 0 * :Reader {}", i, i, i), &format!("reg{}", i)) {
+            st.count("inconclusive_realtime_wait");
+            return Ok(());
+        }
+    }
+    let churn = 6 + s.pick(20);
+    let mut ch = vec![];
+    for _ in 0..churn {
+        ch.push(w.connect());
+    }
+    let per = 20 + s.pick(60);
+    let mut blob = String::new();
+    for _ in 0..per {
+        blob += "LUSERS\r\n";
+    }
+    let start: Vec<usize> = (0..readers).map(|r| w.conns[r].lines.len()).collect();
+    // readers and churners write at the same time
+    for (k, cc) in ch.iter().enumerate() {
+        if k % 3 == 0 {
+            for r in 0..readers {
+                w.send_bytes(r, blob.as_bytes());
+            }
+        }
+        let mut b = format!("NICK x{}\r\nUSER xu{} 0 * :Churn {}\r\n", k, k, k);
+        match s.pick(4) {
+            0 => b += &format!("MODE x{} +i\r\nMODE x{} -i\r\n", k, k),
+            1 => b += &format!("MODE x{} -i\r\nQUIT :done\r\n", k),
+            2 => b += "QUIT :done\r\n",
+            _ => {}
+        }
+        w.send_bytes(*cc, b.as_bytes());
+    }
+    for r in 0..readers {
+        if !mt_line_barrier(&mut w, r, "PING sync", &format!("fin{}", r)) {
+            st.count("inconclusive_realtime_wait");
+            return Ok(());
+        }
+    }
+    let num = |l: &str, after: &str| -> Option<u64> { l.split(after).nth(1).and_then(|x| x.trim().split(|c: char| !c.is_ascii_digit()).next().and_then(|d| d.parse().ok())) };
+    let mut blocks = 0u64;
+    let mut moving = BTreeSet::new();
+    for r in 0..readers {
+        let lines: Vec<String> = w.conns[r].lines[start[r]..].to_vec();
+        let mut cur: BTreeMap<&str, (u64, u64)> = BTreeMap::new();
+        let mut raw: Vec<String> = vec![];
+        for l in &lines {
+            let Ok(m) = refparse::parse(l) else { continue };
+            let t = m.params.last().cloned().unwrap_or_default();
+            match m.command.as_str() {
+                "251" => {
+                    cur.clear();
+                    raw.clear();
+                    // "There are N users and M invisible on 1 servers"
+                    if let (Some(a), Some(b)) = (num(&t, "There are "), num(&t, " users and ")) {
+                        cur.insert("251", (a, b));
+                    }
+                    raw.push(l.clone());
+                }
+                "255" => {
+                    if let Some(a) = num(&t, "I have ") {
+                        cur.insert("255", (a, 0));
+                    }
+                    raw.push(l.clone());
+                }
+                "265" | "266" => {
+                    // "<cur> <max> :Current ... users <cur>, max <max>"
+                    let a = m.params.get(1).and_then(|x| x.parse::<u64>().ok());
+                    let b = m.params.get(2).and_then(|x| x.parse::<u64>().ok());
+                    if let (Some(a), Some(b)) = (a, b) {
+                        cur.insert(if m.command == "265" { "265" } else { "266" }, (a, b));
+                    }
+                    raw.push(l.clone());
+                    if m.command == "266" {
+                        blocks += 1;
+                        if let (Some(u), Some(c255), Some(l265), Some(g266)) = (cur.get("251"), cur.get("255"), cur.get("265"), cur.get("266")) {
+                            moving.insert(c255.0);
+                            let total = u.0 + u.1;
+                            if total != c255.0 || c255.0 != l265.0 || l265.0 != g266.0 || l265.1 < l265.0 || g266.1 < g266.0 {
+                                return Err(Viol::new(
+                                    "C18.lusers_is_one_snapshot",
+                                    "lusers-torn",
+                                    format!(
+                                        "while {} connections registered / left ({} worker threads) r{} got a LUSERS reply that describes no single moment: {} users + {} invisible, {} clients, local {} (max {}), global {} (max {})",
+                                        churn, workers, r, u.0, u.1, c255.0, l265.0, l265.1, g266.0, g266.1
+                                    ),
+                                )
+                                .with_transcript(raw.clone()));
+                            }
+                        }
+                    }
+                }
+                _ => {}
+            }
+        }
+    }
+    if let Some(r) = (0..readers).find(|r| w.conns[*r].eof) {
+        let tail: Vec<String> = w.conns[r].lines.iter().rev().take(6).rev().cloned().collect();
+        return Err(Viol::new("C18.lusers_is_one_snapshot", "lusers-reader-closed", format!("r{} only sent LUSERS while {} connections registered / left ({} worker threads) and was disconnected", r, churn, workers)).with_transcript(tail));
+    }
+    st.add("lusers_blocks_checked", blocks);
+    if moving.len() >= 3 {
+        st.nontrivial(format!("w{}|r{}|c{}|m{}", workers, readers, churn / 5, moving.len().min(8)), || json!({"workers": workers, "readers": readers, "churning_connections": churn, "lusers_per_reader": per * ((churn + 2) / 3), "distinct_client_counts_seen": moving.len()}));
     }
     Ok(())
 }
